@@ -185,7 +185,11 @@ struct Case {
     /// 64 = xls: dual-format file — a decoy `Book` stream (other sheets, other date system) in front of `Workbook`
     /// 128 = xlsx: the relationships namespace is bound to a prefix literally named `id`, declared on every `<sheet>`
     ///       element itself: `<sheet … xmlns:id="…/relationships" id:id="rId1"/>`
-    knobs: u8,
+    /// 256 = xlsx / xlsb: relationship ids that are equal up to ASCII case (relA0 / RELA0 / RelA0 …)
+    /// 512 = xlsb: supporting-link records (BrtSupAddin, BrtSupSame) before BrtSupSelf, BrtSupBookSrc after it; the XTIs
+    ///       name the self link by its index
+    /// 1024 = ods: the style name is spelled with a character reference where it is used (`table:style-name="t&#97;1"`)
+    knobs: u16,
     sheets: Vec<LSheet>,
     names: Vec<LName>,
 }
@@ -561,7 +565,7 @@ fn gen_case(fmt: Fmt, rng: &mut Rng) -> Case {
         cdata: fmt == Fmt::Xlsx && rng.chance(1, 3),
         inert: matches!(fmt, Fmt::Xlsx | Fmt::Ods) && rng.chance(1, 2),
         knobs: {
-            let mut k = 0u8;
+            let mut k = 0u16;
             if fmt == Fmt::Xls && rng.chance(1, 2) {
                 k |= 1;
             }
@@ -585,6 +589,15 @@ fn gen_case(fmt: Fmt, rng: &mut Rng) -> Case {
             }
             if fmt == Fmt::Xlsx && rng.chance(1, 8) {
                 k |= 128;
+            }
+            if matches!(fmt, Fmt::Xlsb | Fmt::Xlsx) && k & 2 == 0 && rng.chance(1, 3) {
+                k |= 256;
+            }
+            if fmt == Fmt::Xlsb && rng.chance(1, 2) {
+                k |= 512;
+            }
+            if fmt == Fmt::Ods && rng.chance(1, 2) {
+                k |= 1024;
             }
             k
         },
@@ -634,7 +647,15 @@ struct Built {
 /// the row of date-styled cells of sheet `i`, its first column and the base serial. Every numeric record kind and
 /// encoding of the format gets one date-styled cell in this row (see `DATE_KINDS`), in consecutive columns.
 fn date_cell(i: usize) -> (u32, u32, f64) {
-    ((i % 3) as u32, (i % 4) as u32, 40000.0 + i as f64 + 0.5)
+    // the serials cover a time of day without a date part (in [0, 1)), day-sized values, exactly 0 (and 1 through the
+    // MULRK / whole-number neighbours) and negative values
+    let v = match i % 4 {
+        0 => 0.75,
+        1 => 40000.0 + i as f64 + 0.5,
+        2 => 0.0,
+        _ => -1.5,
+    };
+    ((i % 3) as u32, (i % 4) as u32, v)
 }
 
 /// number of date-styled numeric cells per sheet:
@@ -653,6 +674,15 @@ fn date_kinds(fmt: Fmt) -> usize {
 /// the relationship id of sheet `i` (knob 2: NCNames with Latin-1 letters — one UTF-16 unit, two UTF-8 bytes —, other
 /// BMP characters and astral characters; never `rId<k>`, which the writers use for styles / shared strings)
 fn rel_id(c: &Case, i: usize, rng: &mut Rng) -> String {
+    if c.knobs & 256 != 0 {
+        // groups of three ids that differ in case only
+        let g = i / 3;
+        return match i % 3 {
+            0 => format!("relA{g}"),
+            1 => format!("RELA{g}"),
+            _ => format!("RelA{g}"),
+        };
+    }
     if c.knobs & 2 == 0 {
         return format!("rId{}", i + 1);
     }
@@ -943,8 +973,15 @@ fn build_xlsb(c: &Case) -> Built {
         }
         book.names.push(xlsbw::DefinedName { name: n.name.clone(), rgce, itab: 0xFFFF_FFFF });
     }
+    if c.knobs & 512 != 0 {
+        // BrtSupAddin (0x029B) / BrtSupSame (0x0166) before the self link, BrtSupBookSrc (0x0163, relationship id) after
+        book.sup_before = if c.plain { vec![(0x029B, vec![])] } else { (0..rng.range(1, 3)).map(|_| (*rng.pick(&[0x029Bu16, 0x0166]), vec![])).collect() };
+        if !c.plain && rng.chance(1, 2) {
+            book.sup_after = vec![(0x0163, xlsbw::wide_str("rId77"))];
+        }
+    }
     let rel_ids: Vec<String> = (0..c.sheets.len()).map(|i| rel_id(c, i, &mut rng)).collect();
-    if c.knobs & 2 != 0 {
+    if c.knobs & (2 | 256) != 0 {
         book.rel_ids = Some(rel_ids.clone());
     }
     let parts = book.parts();
@@ -998,7 +1035,7 @@ fn build_xlsx(c: &Case) -> Built {
         }
     }
     book.split_defined_names = !c.plain && rng.chance(1, 3);
-    if c.knobs & 2 != 0 {
+    if c.knobs & (2 | 256) != 0 {
         book.rel_ids = Some((0..c.sheets.len()).map(|i| rel_id(c, i, &mut rng)).collect());
     }
     book.cdata_defined_names = c.cdata;
@@ -1267,7 +1304,11 @@ fn build_ods(c: &Case) -> Built {
     evs.push(Ev::End("office:document-content".into()));
     let mut r2 = rng.fork();
     let plain = c.plain;
-    let content = format!("<?xml version=\"1.0\" encoding=\"UTF-8\"?>{}", xlsxw::serialize(&evs, || plain || r2.chance(1, 2)));
+    let mut content = format!("<?xml version=\"1.0\" encoding=\"UTF-8\"?>{}", xlsxw::serialize(&evs, || plain || r2.chance(1, 2)));
+    if c.knobs & 1024 != 0 {
+        // the same name, spelled with a character reference at the place of use (quick-xml unescapes attribute values)
+        content = content.replace(" table:style-name=\"ta", " table:style-name=\"t&#97;").replace(" table:style-name=\"missing", " table:style-name=\"&#x6D;issing");
+    }
     let manifest = odsw::OdsBook::default().manifest_xml();
     let bytes = odsw::zip_parts(&manifest, &content, !c.plain && rng.chance(1, 2));
     Built { bytes, force_codepage: None, request: format!("ods {}", xlsxw::ev_wire(&evs)), ties: vec![] }
@@ -1742,7 +1783,7 @@ fn shrink(c: &Case, kind: &str, sig: &str, drv: &mut Driver) -> Case {
             d.inert = false;
             cands.push(d);
         }
-        for bit in [1u8, 2, 4, 8, 16, 32, 64, 128] {
+        for bit in [1u16, 2, 4, 8, 16, 32, 64, 128, 256, 512, 1024] {
             if cur.knobs & bit != 0 {
                 let mut d = cur.clone();
                 d.knobs &= !bit;
@@ -1813,7 +1854,7 @@ fn run_case(c: &Case, drv: &mut Driver, rep: &mut Report, from_corpus: bool) {
     if c.ext != 0 {
         rep.count(&format!("xlsx:extLst={}", c.ext));
     }
-    for (bit, what) in [(1u8, "substreams-out-of-tab-order"), (2, "non-ascii-relationship-ids"), (4, "with_header_row-before-reading"), (8, "style-names-reused-across-families"), (16, "forced-code-page-1251-vs-record-1252 (impl vs spec only)"), (32, "sheet-parts-in-reverse-archive-order"), (64, "dual-stream-Book-before-Workbook"), (128, "relationships-prefix-named-id-declared-on-sheet")] {
+    for (bit, what) in [(1u16, "substreams-out-of-tab-order"), (2, "non-ascii-relationship-ids"), (4, "with_header_row-before-reading"), (8, "style-names-reused-across-families"), (16, "forced-code-page-1251-vs-record-1252 (impl vs spec only)"), (32, "sheet-parts-in-reverse-archive-order"), (64, "dual-stream-Book-before-Workbook"), (128, "relationships-prefix-named-id-declared-on-sheet"), (256, "relationship-ids-equal-up-to-case"), (512, "supporting-links-around-BrtSupSelf"), (1024, "style-name-spelled-with-character-reference")] {
         if c.knobs & bit != 0 {
             rep.count(&format!("{}:{}", c.fmt.tag(), what));
         }
@@ -2037,6 +2078,30 @@ fn corpus() -> Vec<Case> {
         c.sheets = vec![sh("S1", 0, Kind::Work), sh("S2", 1, Kind::Chart)];
         v.push(c);
     }
+    // fourth-round seeded changes (C16-m13 … m16)
+    {
+        for fmt in [Fmt::Xlsx, Fmt::Xlsb] {
+            let mut c = base(fmt);
+            c.knobs = 256;
+            c.sheets = vec![sh("Data", 0, Kind::Work), sh("Chart", 0, Kind::Chart), sh("Dlg", 1, Kind::Dialog)];
+            v.push(c);
+        }
+        let mut c = base(Fmt::Xlsb);
+        c.knobs = 512;
+        c.names = vec![LName { name: "N1".into(), target: Target::Ref(0, 0, 0) }];
+        v.push(c);
+        for fmt in [Fmt::Xls, Fmt::Xlsb, Fmt::Xlsx] {
+            // sheet 0 holds times of day (serials in [0, 1)), sheet 2 zero, sheet 3 negative serials
+            let mut c = base(fmt);
+            c.date1904 = true;
+            c.sheets = vec![sh("T", 0, Kind::Work), sh("D", 0, Kind::Work), sh("Z", 0, Kind::Work), sh("N", 0, Kind::Work)];
+            v.push(c);
+        }
+        let mut c = base(Fmt::Ods);
+        c.knobs = 1024;
+        c.sheets = vec![sh("Shown", 0, Kind::Work), sh("Tucked", 1, Kind::Work)];
+        v.push(c);
+    }
     // third-round seeded changes (C16-m9 … m12)
     {
         let mut c = base(Fmt::Xls);
@@ -2107,7 +2172,7 @@ fn main() {
         "C16",
         "one case = one logical workbook (0-12 sheets with unique names of 1-31 UTF-16 units drawn from ASCII, XML specials, Latin-1, BMP and non-BMP characters, \
          excluding the characters Excel forbids in sheet names and NUL, sometimes with a leading U+FEFF; every visibility x kind the format expresses; 0-10 defined names: text for \
-         xlsx/ods, PtgRef3d/PtgArea3d (absolute, and with relative row/column parts rendered without `$`)/PtgRefErr3d for xls/xlsb; both date systems, in every sheet one date-styled cell of every numeric record kind and encoding (xls: NUMBER, RK x4, MULRK, FORMULA; xlsb: BrtCellReal, BrtCellRk x4, BrtFmlaNum; xlsx: number, whole number, formula with cached number), each checked for the flag; xlsx: in half of the cases an extLst with foreign-namespace elements whose local names are workbookPr / definedName / sheet) in half of the xlsx / ods cases inert elements, comments and processing instructions at random positions between the interpreted elements) xls: sheet substreams stored out of tab order; xlsb/xlsx: relationship ids with Latin-1, BMP and astral characters; ods: table style names reused by styles of other families; in a third of the cases with_header_row is called on the opened reader before anything is read; a sixth of the xls cases are opened with force_codepage = 1251 against a CodePage record 1252 with 8-bit windows-1251 names — implementation against the oracle only; a quarter of the xls cases are dual-stream files with a decoy Book stream first; xlsx sheet parts in reverse archive order; xlsb names that refer to earlier names; every reader is dumped twice — for xlsx with load_merged_regions / load_tables in between — and the two dumps must agree) written under a random layout; non-trivial = at \
+         xlsx/ods, PtgRef3d/PtgArea3d (absolute, and with relative row/column parts rendered without `$`)/PtgRefErr3d for xls/xlsb; both date systems, in every sheet one date-styled cell of every numeric record kind and encoding, with serials that are times of day in [0,1), day-sized, 0, 1 and negative (xls: NUMBER, RK x4, MULRK, FORMULA; xlsb: BrtCellReal, BrtCellRk x4, BrtFmlaNum; xlsx: number, whole number, formula with cached number), each checked for the flag; xlsx: in half of the cases an extLst with foreign-namespace elements whose local names are workbookPr / definedName / sheet) in half of the xlsx / ods cases inert elements, comments and processing instructions at random positions between the interpreted elements) xls: sheet substreams stored out of tab order; xlsb/xlsx: relationship ids with Latin-1, BMP and astral characters; ods: table style names reused by styles of other families; in a third of the cases with_header_row is called on the opened reader before anything is read; a sixth of the xls cases are opened with force_codepage = 1251 against a CodePage record 1252 with 8-bit windows-1251 names — implementation against the oracle only; a quarter of the xls cases are dual-stream files with a decoy Book stream first; xlsx sheet parts in reverse archive order; xlsb names that refer to earlier names; every reader is dumped twice — for xlsx with load_merged_regions / load_tables in between — and the two dumps must agree) written under a random layout; non-trivial = at \
          least one sheet and (several sheets, a defined name, or a non-default visibility/kind); \
          about 4% of the xls / ods cases carry an out-of-specification detail (DATEMODE = 2; a style name defined twice) on which only implementation and model are compared; unit cases = BoundSheet8 payloads (all 65536 hsState x dt byte pairs, random and truncated strings)",
     );
